@@ -32,6 +32,13 @@ def _is_credit_store(call):
     return isinstance(n, ast.Constant) and n.value == "credit_units"
 
 
+def _arg0(call, name):
+    v = kwarg(call, name)
+    if v is None and call.args:
+        v = call.args[0]
+    return src(v) if v is not None else "<missing>"
+
+
 def check(chk):
     repo = chk.repo
     idx = get_index(repo)
@@ -130,7 +137,7 @@ def check(chk):
                 continue
             chk.ob("BOUND-2", "store of the balance in %s is of a known bounded form" % f.name, False, where, detail="value `%s` not classified" % vs,
                    construct=f.ident, text="unclassified store %s in %s" % (vs, f.name))
-    chk.expect(n_st >= 6, "C20: balance stores lost (%d)" % n_st)
+    chk.expect(n_st >= 4, "C20: balance stores lost (%d)" % n_st)
     a = cr.methods["_add_credit_units"]
     acfg = a.cfg()
     tot = [x for x in walk_local(a.node) if isinstance(x, ast.Assign) and src(x.targets[0]) == "total_credit_units"]
@@ -188,7 +195,7 @@ def check(chk):
     ok = len(au) == 1 and [src(x) for x in au[0].args] == ["value", "audit_class", "key_name"]
     chk.ob("DOM-38", "a coin is audited once with its own value, class and label", ok, sw.where(), construct=sw.ident, text="coin audit")
     ad = [c for c in sw.calls() if call_attr(c) == "_add_credit_units"]
-    ok = len(ad) == 1 and src(kwarg(ad[0], "credit_units") or ad[0].args[0]).replace(" ", "") == "value/self.credit_unit" and \
+    ok = len(ad) == 1 and _arg0(ad[0], "credit_units").replace(" ", "") == "value/self.credit_unit" and \
         (kwarg(ad[0], "price_tiering") is None or src(kwarg(ad[0], "price_tiering")) == "True")
     chk.ob("DOM-38", "a coin adds value / credit_unit units and takes part in the pricing tiers", ok, sw.where(), construct=sw.ident, text="coin credit")
     ev = cr.methods["_credit_event_callback"]
@@ -199,7 +206,7 @@ def check(chk):
     chk.ob("DOM-38", "credits awarded by events (replays, match) never advance the pricing tiers", ok, ev.where(),
            detail="they are not money: with tiering an award plus fewer coins than the tier price would earn the bonus credit", construct=ev.ident,
            text="event credits tiering " + (src(pt) if pt is not None else "default"))
-    ok = len(ad) == 1 and src(kwarg(ad[0], "credit_units") or ad[0].args[0]).replace(" ", "") == "credits_value*self.credit_units_per_game"
+    ok = len(ad) == 1 and _arg0(ad[0], "credit_units").replace(" ", "") == "credits_value*self.credit_units_per_game"
     chk.ob("DOM-38", "an event credit is worth one game price each", ok, ev.where(), construct=ev.ident, text="event credit units")
     au = [c for c in ev.calls() if call_attr(c) == "_audit_event"]
     chk.ob("DOM-38", "event credits are audited as such", len(au) == 1 and [src(x) for x in au[0].args] == ["credits_value", "audit_class"], ev.where(),
